@@ -236,3 +236,261 @@ Proof.
   destruct (text_eqb (de_name e) DOTDOT) eqn:E2; [apply text_eqb_eq in E2; contradiction|].
   cbn [orb negb]. f_equal. exact IH.
 Qed.
+
+(* ---------------- LIST ---------------- *)
+(* modes whose nine permission letters contain neither 'S' nor 'T' *)
+Definition no_ST (mode : Z) : bool :=
+  negb (bit mode 11 && negb (bit mode 6)) && negb (bit mode 10 && negb (bit mode 3))
+  && negb (bit mode 9 && negb (bit mode 0)).
+
+(* what the client reads from the nine letters: the 12 permission bits, except that 't' is
+   read as sticky WITHOUT the others-execute bit (parse_unix_mode: 0o1000 instead of 0o1001) *)
+Definition mode_view (mode : Z) : Z :=
+  let p := mode mod 4096 in
+  if bit mode 9 && bit mode 0 then p - 1 else p.
+
+Definition res_Z_eqb (a b : res Z) : bool :=
+  match a, b with
+  | Ok x, Ok y => x =? y
+  | Err x, Err y => x =? y
+  | _, _ => false
+  end.
+
+Lemma mode_sweep :
+  forallb (fun p => if no_ST p then res_Z_eqb (parse_unix_mode (perm_chars p)) (Ok (mode_view p))
+                    else res_Z_eqb (parse_unix_mode (perm_chars p)) (Err E_VALUE))
+          (zrange 0 (Z.to_nat 4096)) = true.
+Proof. vm_compute. reflexivity. Qed.
+
+Lemma bit_mod mode k : 0 <= k < 12 -> bit (mode mod 4096) k = bit mode k.
+Proof. intro H. unfold bit. change 4096 with (2 ^ 12). apply Z.mod_pow2_bits_low. lia. Qed.
+
+Lemma perm_chars_mod mode : perm_chars (mode mod 4096) = perm_chars mode.
+Proof. unfold perm_chars. rewrite !bit_mod by lia. reflexivity. Qed.
+
+Lemma parse_perm_chars mode :
+  no_ST mode = true -> parse_unix_mode (perm_chars mode) = Ok (mode_view mode).
+Proof.
+  intro H. pose proof (Z.mod_pos_bound mode 4096 ltac:(lia)) as B.
+  pose proof (forallb_zrange _ _ _ mode_sweep (mode mod 4096) ltac:(lia)) as S. cbv beta in S.
+  assert (N : no_ST (mode mod 4096) = no_ST mode) by (unfold no_ST; rewrite !bit_mod by lia; reflexivity).
+  assert (V : mode_view (mode mod 4096) = mode_view mode).
+  { unfold mode_view. rewrite !bit_mod by lia. rewrite Z.mod_mod by lia. reflexivity. }
+  rewrite N, H, perm_chars_mod, V in S.
+  destruct (parse_unix_mode (perm_chars mode)) as [x|x]; cbn in S; [|discriminate].
+  apply Z.eqb_eq in S. congruence.
+Qed.
+
+Lemma parse_perm_chars_ST mode :
+  no_ST mode = false -> parse_unix_mode (perm_chars mode) = Err E_VALUE.
+Proof.
+  intro H. pose proof (Z.mod_pos_bound mode 4096 ltac:(lia)) as B.
+  pose proof (forallb_zrange _ _ _ mode_sweep (mode mod 4096) ltac:(lia)) as S. cbv beta in S.
+  assert (N : no_ST (mode mod 4096) = no_ST mode) by (unfold no_ST; rewrite !bit_mod by lia; reflexivity).
+  rewrite N, H, perm_chars_mod in S.
+  destruct (parse_unix_mode (perm_chars mode)) as [x|x]; cbn in S; [discriminate|].
+  apply Z.eqb_eq in S. congruence.
+Qed.
+
+(* fields *)
+Lemma index_of_app f r : avoids SP f -> index_of SP (f ++ SP :: r) = Some (length f).
+Proof.
+  unfold avoids. induction f as [|x f IH]; cbn; intro H.
+  - reflexivity.
+  - apply andb_true_iff in H as [Hx Hf]. apply negb_true_iff in Hx. rewrite Hx, (IH Hf). reflexivity.
+Qed.
+
+Lemma take_field_app f r : avoids SP f -> take_field (f ++ SP :: r) = Ok (f, lstrip r).
+Proof.
+  intro H. unfold take_field. rewrite (index_of_app f r H).
+  rewrite firstn_app, Nat.sub_diag, firstn_all. cbn [firstn]. rewrite app_nil_r.
+  rewrite skipn_app, Nat.sub_diag, skipn_all. cbn [skipn app].
+  rewrite (lstrip_cons_space SP r is_space_SP). reflexivity.
+Qed.
+
+(* text that starts with a non-space character *)
+Definition starts_nonspace (s : text) : Prop := exists c r, s = c :: r /\ is_space c = false.
+
+Lemma lstrip_starts_nonspace s : starts_nonspace s -> lstrip s = s.
+Proof. intros (c & r & -> & H). apply lstrip_cons_nonspace. exact H. Qed.
+
+Lemma starts_nonspace_app s r : starts_nonspace s -> starts_nonspace (s ++ r).
+Proof. intros (c & r' & -> & H). exists c, (r' ++ r). split; [reflexivity|exact H]. Qed.
+
+Lemma digits_starts_nonspace s : s <> [] -> forallb is_ascii_digit s = true -> starts_nonspace s.
+Proof.
+  destruct s as [|c r]; [congruence|]. intros _ H. cbn in H. apply andb_true_iff in H as [H _].
+  exists c, r. split; [reflexivity|apply ascii_digit_not_space; exact H].
+Qed.
+
+Lemma str_nonneg_starts n : 0 <= n -> starts_nonspace (str_of_Z n).
+Proof.
+  intro H. rewrite (str_of_Z_nonneg n H).
+  apply digits_starts_nonspace; [apply str_of_nonneg_nonempty|apply str_of_nonneg_digits].
+Qed.
+
+Lemma str_nonneg_avoids_sp n : 0 <= n -> avoids SP (str_of_Z n).
+Proof. intro H. apply avoids_str_of_Z; [reflexivity|unfold SP; lia]. Qed.
+
+Lemma str_nonneg_isdigit n : 0 <= n -> str_isdigit (str_of_Z n) = true.
+Proof.
+  intro H. rewrite (str_of_Z_nonneg n H).
+  apply all_ascii_digit_isdigit; [apply str_of_nonneg_nonempty|apply str_of_nonneg_digits].
+Qed.
+
+(* names and date columns the ls format can carry *)
+Definition strip_fixed (s : text) : Prop := s <> [] /\ rstrip s = s /\ lstrip s = s.
+
+Lemma strip_fixed_strip s : strip_fixed s -> strip s = s.
+Proof. intros (_ & R & L). unfold strip. rewrite R. exact L. Qed.
+
+Lemma strip_sp_cons s : strip_fixed s -> strip (SP :: s) = s.
+Proof.
+  intros (N & R & L). unfold strip.
+  change (SP :: s) with ([SP] ++ s). rewrite (rstrip_app_nonempty [SP] s N R).
+  cbn [app]. rewrite (lstrip_cons_space SP s is_space_SP). exact L.
+Qed.
+
+Lemma strip_fixed_starts s : strip_fixed s -> starts_nonspace s.
+Proof.
+  intros (N & _ & L). destruct s as [|c r]; [congruence|]. exists c, r. split; [reflexivity|].
+  cbn in L. destruct (is_space c) eqn:E; [|reflexivity].
+  exfalso. assert (Hlen : (length (lstrip r) <= length r)%nat).
+  { clear. induction r as [|x r IH]; cbn; [lia|]. destruct (is_space x); cbn; lia. }
+  rewrite L in Hlen. cbn in Hlen. lia.
+Qed.
+
+Definition list_line (mode nlink size : Z) (ds name : text) : text :=
+  build_list_string_with (mkstats size 0 0 nlink mode) ds name.
+
+Lemma list_line_shape mode nlink size ds name ct mt :
+  build_list_string_with (mkstats size ct mt nlink mode) ds name
+  = filetype_char mode :: perm_chars mode ++ SP :: str_of_Z nlink ++ SP :: t_none ++ SP :: t_none
+      ++ SP :: str_of_Z size ++ SP :: ds ++ SP :: name.
+Proof.
+  unfold build_list_string_with, join, filemode. cbn [flat_map st_mode st_nlink st_size app].
+  rewrite app_nil_r. unfold perm_chars. cbn [app]. repeat (rewrite <- ?app_assoc; cbn [app]). reflexivity.
+Qed.
+
+Definition type_of_char (c : Z) : text :=
+  if c =? 45 then t_file else if c =? 100 then t_dir else if c =? 108 then t_link else t_unknown.
+
+Lemma firstn_exact {A} n (l r : list A) : length l = n -> firstn n (l ++ r) = l.
+Proof. intros <-. rewrite firstn_app, Nat.sub_diag, firstn_all. cbn [firstn]. apply app_nil_r. Qed.
+
+Lemma skipn_exact {A} n (l r : list A) : length l = n -> skipn n (l ++ r) = r.
+Proof. intros <-. rewrite skipn_app, Nat.sub_diag, skipn_all. reflexivity. Qed.
+
+Lemma perm_chars_length mode : length (perm_chars mode) = 9%nat.
+Proof. reflexivity. Qed.
+
+Lemma slice_perm c (p r : text) : length p = 9%nat -> slice 1 10 (c :: p ++ r) = p.
+Proof. intro H. unfold slice. change (skipn 1 (c :: p ++ r)) with (p ++ r). change (10 - 1)%nat with 9%nat. apply firstn_exact. exact H. Qed.
+
+Lemma skipn_perm c (p r : text) : length p = 9%nat -> skipn 10 (c :: p ++ r) = r.
+Proof. intro H. change (skipn 10 (c :: p ++ r)) with (skipn 9 (p ++ r)). apply skipn_exact. exact H. Qed.
+
+(* list_roundtrip: the LIST line of a regular file or directory parses back to the same name,
+   type, size, link count and the date column handed to parse_ls_date *)
+Theorem list_roundtrip half two now st ds name modify :
+  (filetype_char (st_mode st) = 45 \/ filetype_char (st_mode st) = 100) ->
+  no_ST (st_mode st) = true ->
+  0 <= st_nlink st -> 0 <= st_size st ->
+  length ds = 12%nat -> strip_fixed ds -> strip_fixed name ->
+  parse_ls_date half two ds now = Some modify ->
+  parse_list_line_unix half two now (build_list_string_with st ds name)
+  = Ok (name, mklinfo (type_of_char (filetype_char (st_mode st))) (mode_view (st_mode st))
+                      (str_of_Z (st_nlink st)) t_none t_none (str_of_Z (st_size st)) modify None).
+Proof.
+  intros Hty HST Hnl Hsz Hlen Hds Hname Hdate.
+  destruct st as [size ct mt nlink mode]. cbn [st_mode st_nlink st_size] in *.
+  rewrite list_line_shape. unfold parse_list_line_unix.
+  set (tail5 := ds ++ SP :: name).
+  set (tail4 := str_of_Z size ++ SP :: tail5).
+  set (tail3 := t_none ++ SP :: tail4).
+  set (tail2 := t_none ++ SP :: tail3).
+  set (tail1 := str_of_Z nlink ++ SP :: tail2).
+  (* rstrip leaves the line alone *)
+  assert (R : rstrip (filetype_char mode :: perm_chars mode ++ SP :: tail1)
+              = filetype_char mode :: perm_chars mode ++ SP :: tail1).
+  { destruct Hname as (Nn & Nr & _).
+    replace (filetype_char mode :: perm_chars mode ++ SP :: tail1)
+      with ((filetype_char mode :: perm_chars mode ++ SP :: str_of_Z nlink ++ SP :: t_none ++ SP :: t_none
+              ++ SP :: str_of_Z size ++ SP :: ds ++ [SP]) ++ name).
+    - apply rstrip_app_nonempty; assumption.
+    - subst tail1 tail2 tail3 tail4 tail5. cbn [app]. f_equal.
+      repeat (rewrite <- ?app_assoc; cbn [app]). reflexivity. }
+  rewrite R. clear R. cbv beta iota zeta.
+  rewrite (slice_perm _ _ _ (perm_chars_length mode)), (skipn_perm _ _ _ (perm_chars_length mode)).
+  rewrite (parse_perm_chars mode HST). cbn [bind].
+  (* link count *)
+  rewrite (lstrip_cons_space SP tail1 is_space_SP).
+  assert (S1 : starts_nonspace tail1) by (apply starts_nonspace_app, str_nonneg_starts; exact Hnl).
+  rewrite (lstrip_starts_nonspace tail1 S1).
+  subst tail1. rewrite (take_field_app _ _ (str_nonneg_avoids_sp nlink Hnl)). cbn [bind].
+  rewrite (str_nonneg_isdigit nlink Hnl). cbn [negb].
+  (* owner, group *)
+  assert (S2 : starts_nonspace tail2) by (exists 110, ([111; 110; 101] ++ SP :: tail3); split; [reflexivity|vm_compute; reflexivity]).
+  rewrite (lstrip_starts_nonspace tail2 S2). subst tail2.
+  rewrite (take_field_app t_none _ ltac:(reflexivity)). cbn [bind].
+  assert (S3 : starts_nonspace tail3) by (exists 110, ([111; 110; 101] ++ SP :: tail4); split; [reflexivity|vm_compute; reflexivity]).
+  rewrite (lstrip_starts_nonspace tail3 S3). subst tail3.
+  rewrite (take_field_app t_none _ ltac:(reflexivity)). cbn [bind].
+  (* size *)
+  assert (S4 : starts_nonspace tail4) by (apply starts_nonspace_app, str_nonneg_starts; exact Hsz).
+  rewrite (lstrip_starts_nonspace tail4 S4). subst tail4.
+  rewrite (take_field_app _ _ (str_nonneg_avoids_sp size Hsz)). cbn [bind].
+  rewrite (str_nonneg_isdigit size Hsz). cbn [negb].
+  (* date column and name *)
+  assert (S5 : starts_nonspace tail5) by (apply starts_nonspace_app, strip_fixed_starts; exact Hds).
+  rewrite (lstrip_starts_nonspace tail5 S5). subst tail5.
+  rewrite (firstn_exact 12 ds _ Hlen), (strip_fixed_strip ds Hds), Hdate.
+  rewrite (skipn_exact 12 ds _ Hlen).
+  rewrite (strip_sp_cons name Hname).
+  unfold type_of_char. destruct Hty as [-> | ->]; reflexivity.
+Qed.
+
+(* the two date columns the server emits are 12 characters and strip-fixed (4-digit years) *)
+Lemma hm_text_props t : valid_dt t = true -> length (fmt_b_e_HM t) = 12%nat /\ strip_fixed (fmt_b_e_HM t).
+Proof.
+  intro V. destruct (valid_dt_fields t V) as (HM & HD & Hh & Hmn).
+  pose proof (month_abbr_length _ HM) as L3.
+  unfold fmt_b_e_HM. destruct (month_abbr (mo t)) as [|a [|b [|c [|? ?]]]] eqn:E; try discriminate.
+  assert (Ha : 65 <= a <= 122) by (apply (month_abbr_chars (mo t)); [exact HM|rewrite E; left; reflexivity]).
+  assert (Sa : is_space a = false).
+  { pose proof (forallb_zrange (fun c => negb (is_space c)) 65 58 ltac:(vm_compute; reflexivity) a ltac:(simpl; lia)) as S.
+    apply negb_true_iff in S. exact S. }
+  split.
+  - unfold spad2. destruct (dy t <? 10); reflexivity.
+  - repeat split.
+    + discriminate.
+    + replace ([a; b; c] ++ [SP] ++ spad2 (dy t) ++ [SP] ++ zfill2 (hh t) ++ [COLON] ++ zfill2 (mi t))
+        with (([a; b; c] ++ [SP] ++ spad2 (dy t) ++ [SP] ++ zfill2 (hh t) ++ [COLON]) ++ zfill2 (mi t))
+        by (repeat (rewrite <- ?app_assoc; cbn [app]); reflexivity).
+      apply rstrip_app_nonempty; [discriminate|].
+      apply all_ascii_digit_rstrip. unfold zfill2. cbn [forallb]. rewrite !mod10_digit. reflexivity.
+    + cbn [app]. apply lstrip_cons_nonspace. exact Sa.
+Qed.
+
+Lemma y_text_props t : valid_dt t = true -> 1000 <= yr t <= 9999 ->
+  length (fmt_b_e_Y t) = 12%nat /\ strip_fixed (fmt_b_e_Y t).
+Proof.
+  intros V HY. destruct (valid_dt_fields t V) as (HM & HD & Hh & Hmn).
+  pose proof (month_abbr_length _ HM) as L3.
+  unfold fmt_b_e_Y. rewrite (str_of_Z_4 _ HY).
+  destruct (month_abbr (mo t)) as [|a [|b [|c [|? ?]]]] eqn:E; try discriminate.
+  assert (Ha : 65 <= a <= 122) by (apply (month_abbr_chars (mo t)); [exact HM|rewrite E; left; reflexivity]).
+  assert (Sa : is_space a = false).
+  { pose proof (forallb_zrange (fun c => negb (is_space c)) 65 58 ltac:(vm_compute; reflexivity) a ltac:(simpl; lia)) as S.
+    apply negb_true_iff in S. exact S. }
+  split.
+  - unfold spad2. destruct (dy t <? 10); reflexivity.
+  - repeat split.
+    + discriminate.
+    + replace ([a; b; c] ++ [SP] ++ spad2 (dy t) ++ [SP; SP] ++ digits4 (yr t))
+        with (([a; b; c] ++ [SP] ++ spad2 (dy t) ++ [SP; SP]) ++ digits4 (yr t))
+        by (repeat (rewrite <- ?app_assoc; cbn [app]); reflexivity).
+      apply rstrip_app_nonempty; [discriminate|].
+      apply all_ascii_digit_rstrip. unfold digits4. cbn [forallb]. rewrite !mod10_digit. reflexivity.
+    + cbn [app]. apply lstrip_cons_nonspace. exact Sa.
+Qed.
